@@ -288,7 +288,7 @@ theorem evloopAddCtx_spec (s : St) (c : Nat) (hl : (s.ctx c).mem = .live) (hfd :
   | some k => by_cases h : s.reg.length ≥ k <;> simp [h, pure, Except.pure]
 
 theorem cbAddCtx_spec (s : St) (c : Nat) (hl : (s.ctx c).mem = .live) :
-    cbAddCtx s c = .ok (s.set c { s.ctx c with nAdd := (s.ctx c).nAdd + 1 }) := by
+    cbAddCtx s c = .ok (s.set c { s.ctx c with nAdd := (s.ctx c).nAdd + 1, oAdd := (s.ctx c).ref }) := by
   simp [cbAddCtx, live_ok hl, bind, Except.bind, pure, Except.pure]
 
 
@@ -309,7 +309,7 @@ theorem wakeOne_eq (s : St) : wakeOne s =
 theorem wakeBody_spec (s0 : St) (c : Nat) (hl : (s0.ctx c).mem = .live) (hfd : (s0.ctx c).fdOpen = true)
     (hfix : s0.fixed = true) :
     wakeBody s0 c = if full s0 then .ok (s0.set c (relRec (s0.ctx c)))
-      else .ok (({ s0 with reg := s0.reg ++ [c] } : St).set c { s0.ctx c with nAdd := (s0.ctx c).nAdd + 1 }) := by
+      else .ok (({ s0 with reg := s0.reg ++ [c] } : St).set c { s0.ctx c with nAdd := (s0.ctx c).nAdd + 1, oAdd := (s0.ctx c).ref }) := by
   unfold wakeBody
   rw [evloopAddCtx_spec s0 c hl hfd]
   by_cases hf : full s0
@@ -343,7 +343,7 @@ theorem wakeOne_inv {s : St} (hi : Inv s) (hex : s.exited = false) :
       refine ⟨_, rfl, ?_, rfl, rfl⟩
       exact inv_update hi c (relRec (s.ctx c)) s.reg rest hl (fun _ _ => Iff.rfl) hQ hi.regNd
         (List.nodup_cons.mp hnd).2 (fun h => absurd h hcr)
-        (good_congr (good_release g' hl (Or.inr ⟨rfl, rfl⟩)) (by simp [hcr]) (by simp [hcrest]))
+        (good_congr (good_release g' hl (Or.inr ⟨rfl, rfl⟩) (not_closing_of_not_reg g')) (by simp [hcr]) (by simp [hcrest]))
         (fun h => (hex' h).elim)
     · rw [if_neg hf]
       refine ⟨_, rfl, ?_, rfl, rfl⟩
@@ -353,7 +353,7 @@ theorem wakeOne_inv {s : St} (hi : Inv s) (hex : s.exited = false) :
         intro a ha b hb
         simp at hb; subst hb
         intro e; subst e; exact hcr ha
-      exact inv_update hi c { s.ctx c with nAdd := (s.ctx c).nAdd + 1 } (s.reg ++ [c]) rest hl
+      exact inv_update hi c { s.ctx c with nAdd := (s.ctx c).nAdd + 1, oAdd := (s.ctx c).ref } (s.reg ++ [c]) rest hl
         (fun c' h => by simp [h]) hQ hRn (List.nodup_cons.mp hnd).2 (fun _ => hcrest)
         (good_congr (good_add g' hl) (by simp) (by simp [hcrest]))
         (fun h => (hex' h).elim)
